@@ -37,7 +37,7 @@ pub fn suffixed_words(l: L) -> Vec<String> {
 
 impl C05 {
     pub fn new(tier: Tier) -> C05 {
-        let sets = hl_sets(&Bounds { t: tier.pick(5, 6), q: tier.pick(4, 5), words: tier.pick(2, 3), fams: vec![1, 2, 4, 6] });
+        let sets = hl_sets(&Bounds { t: tier.pick(5, 6), q: tier.pick(4, 5), words: tier.pick(2, 3), corpus: true, fams: vec![1, 2, 4, 6] });
         let mut prefix_sets = Vec::new();
         let mut corpus = corpus_en_words();
         corpus.extend(corpus_ecommerce_tokens());
@@ -221,8 +221,8 @@ impl Prop for C05 {
         let stores: [(Vec<Rec>, usize); 3] =
             [(vec![rec(10, &title, 5)], 10), (vec![rec(20, &t2, 9), rec(10, &title, 5), rec(30, &t3, 1)], 10), (vec![rec(20, &t2, 1), rec(10, &title, 5), rec(30, &t3, 9)], 1)];
         // query side, once per case
-        let qtoks: Vec<Option<(std::collections::BTreeSet<Gram>, usize)>> = set
-            .queries
+        let queries = set.queries_for(&title);
+        let qtoks: Vec<Option<(std::collections::BTreeSet<Gram>, usize)>> = queries
             .iter()
             .map(|q| {
                 tokq(l, q).and_then(|t| {
@@ -240,7 +240,7 @@ impl Prop for C05 {
             cx.state();
             let toks: Vec<(usize, Option<(std::collections::BTreeSet<Gram>, WordMap)>)> =
                 recs.iter().map(|r| (r.0, tok_record(l, &r.1).map(|t| (text_grams(&t), word_map(&t))))).collect();
-            for (qi, q) in set.queries.iter().enumerate() {
+            for (qi, q) in queries.iter().enumerate() {
                 let Some((qgrams, stretch)) = &qtoks[qi] else { continue }; // queries without a word are C12's
                 cx.eval();
                 let hits = match cx.search(&mut st, q) {
